@@ -35,7 +35,7 @@ theorem empty_group_by (S : Strs) (fa : Nat → Nat → Nat) (st : Stmt) : group
   group_empty S fa st
 
 /-- sum over int64 values: whenever the engine answers, the answer is the arithmetic sum of the group's values —
-    for every group, no range restriction: a running sum that leaves int64 is an error (09a61fb; the pinned tree
+    for every group, no range restriction: a sum that is not an int64 is an error (09a61fb, 4abc0e2; the pinned tree
     wrapped: the sum of 9223372036854775807 and 1 was -9223372036854775808). -/
 theorem sum_is_arithmetic (S : Strs) (fa : Nat → Nat → Nat) (first : Row) (b a : Bytes) (grp : List Row) (x v : Int)
     (hfirst : first.get b = some (.lit (.int x)))
@@ -54,15 +54,26 @@ theorem sum_is_arithmetic (S : Strs) (fa : Nat → Nat → Nat) (first : Row) (b
       rw [← h]
       exact sumEngine_ok xs w hs
 
-/-- … and the engine answers whenever no intermediate sum leaves int64. -/
-theorem sum_defined (xs : List Int) (h : ∀ pre, pre <+: xs → inInt64 (pre.foldl (· + ·) 0) = true) :
-    sumEngine xs = .ok (xs.foldl (· + ·) 0) := by
-  have := sumFrom_defined xs 0 (by simpa using h)
-  simpa [sumEngine] using this
+/-- … and the engine answers exactly when that sum is an int64: no condition on the running sums (4abc0e2). The old
+    statement needed "every prefix sums within int64" — a hypothesis about the ORDER of the rows of a group, which the
+    planner does not fix: 9223372036854775802, 10, -10 had a sum in one order and failed in another. -/
+theorem sum_defined (xs : List Int) (h : inInt64 (xs.foldl (· + ·) 0) = true) :
+    sumEngine xs = .ok (xs.foldl (· + ·) 0) :=
+  sumEngine_defined xs h
 
-/-- Non-vacuity, at the points the old hypothesis excluded: 2^63-1 + 1 is an error; 2^62 + 2^62 - 1 is not. -/
+/-- The outcome of a sum — value or overflow error — does not depend on the order of the rows of the group. -/
+theorem sum_is_order_independent (xs ys : List Int) (h : xs.Perm ys) : sumEngine xs = sumEngine ys :=
+  sumEngine_perm xs ys h
+
+/-- The reference's sum (the positive values and the negative values summed apart) is the engine's sum. -/
+theorem reference_sum_is_engine_sum (xs : List Int) : sumExact xs = sumEngine xs :=
+  sumExact_eq_engine xs
+
+/-- Non-vacuity, at the points the old hypotheses excluded: 2^63-1 + 1 is an error; 2^62 + 2^62 - 1 is not; a running
+    sum may leave int64 and come back. -/
 example : sumEngine [9223372036854775807, 1] = .error .sumOverflow ∧
-    sumEngine [4611686018427387904, 4611686018427387903] = .ok 9223372036854775807 := ⟨by rfl, by rfl⟩
+    sumEngine [4611686018427387904, 4611686018427387903] = .ok 9223372036854775807 ∧
+    sumEngine [9223372036854775802, 10, -10] = .ok 9223372036854775802 := ⟨by rfl, by rfl, by rfl⟩
 
 /-- The composite key of a group identifies its grouping values: `Table.Reduce` writes every grouping value as
     `<length>:<value>;` (7f64a50; the pinned tree joined the values with `;`, so `("a;b","c")` and `("a","b;c")`
@@ -95,5 +106,7 @@ end BW.Props.C11
 #print axioms BW.Props.C11.empty_group_by
 #print axioms BW.Props.C11.sum_is_arithmetic
 #print axioms BW.Props.C11.sum_defined
+#print axioms BW.Props.C11.sum_is_order_independent
+#print axioms BW.Props.C11.reference_sum_is_engine_sum
 #print axioms BW.Props.C11.group_by_means_its_tokens
 #print axioms BW.Props.C11.group_key_identifies_the_values
